@@ -8,6 +8,7 @@ from sv.engine import ctx
 from sv.engine.ob import Ob
 from sv.engine.xh import assume, check, choose, concrete, native
 from sv.ref import alphabets as al, cells, docs, slots, stubs
+from sv.ref import spinepath as sp
 
 import kernpy as kp
 from kernpy.core import tokens as tk
@@ -424,12 +425,59 @@ def _h_body(pre, d):
     return True
 
 
+# ------------------------------------------------------------------ C03.i spine-operator lines around sections that hold only null lines
+I_LAYOUTS = []
+
+
+def _i_layouts():
+    if not I_LAYOUTS:
+        for heads in (('**kern',), ('**kern', '**text'), ('**kern', '**kern')):
+            for lay in sp.enumerate_layouts(len(heads), 3 if len(heads) == 1 else 2):
+                if lay:
+                    I_LAYOUTS.append((heads, lay))
+    return I_LAYOUTS
+
+
+def ob_i(layout: int, keep: int) -> bool:
+    L = _i_layouts()
+    assume(0 <= layout < len(L) and 0 <= keep < 3)
+    return _i_body(choose(layout, len(L)), choose(keep, 3))
+
+
+@native
+def _i_body(i, keep):
+    """Every spine-operator layout in which the lines between the operator lines hold only null tokens (keep = 0), only null
+    tokens except below the last operator line (1), or null tokens in the first column only (2): the null lines are dropped, every
+    other cell -- each spine operator among them -- is written in place."""
+    heads, lay = _i_layouts()[i]
+    rows = sp.build_rows(list(heads), lay)
+    data_idx = [r for r, row in enumerate(rows) if r > 0 and not row[0].startswith(('*', '!'))]
+    for n, r in enumerate(data_idx):
+        if r == 1:
+            continue                      # the first data line stays (it opens the score)
+        if keep == 0 or (keep == 1 and n < len(data_idx) - 1):
+            rows[r] = ['.'] * len(rows[r])
+        elif keep == 2:
+            rows[r] = ['.'] + rows[r][1:]
+    text = sp.to_text(rows)
+    doc, errs = kp.loads(text)
+    check(not errs, f'import errors on {text!r}')
+    got = cells.parse_grid(kp.dumps(doc, spine_types=sorted(set(heads))))
+    exp = [r for r in rows if not all(c == '.' for c in r)]
+    check(got == exp, f'{text!r}: exported {got}, expected every line except the all-null ones: {exp}')
+    return True
+
+
 OBLIGATIONS = [
     Ob(id='C03.h', fn=ob_h, title='histories from the first call of a fresh interpreter: the default (and extended) export still conserves every cell',
        shard_of=lambda pre, d: pre, shards={'quick': 5, 'thorough': 5}, budget_s={'quick': 150, 'thorough': 600}, native_body=True,
        witnesses=[{'pre': 0, 'd': 0}], min_confirmed=15, enumerated='first call (10 kinds, incl. none), document (2)',
        realized_at=['fresh python interpreter per history (subprocess)'],
        bounds={'quick': '10 first calls x 2 pool documents (kern + text with chord / decorations / accidentals; kern + dynam + harm)', 'thorough': 'same'}),
+    Ob(id='C03.i', fn=ob_i, title='spine-operator lines are conserved when the sections between them hold only null lines',
+       shard_of=lambda layout, keep: layout, shards={'quick': 8, 'thorough': 8}, budget_s={'quick': 120, 'thorough': 600},
+       witnesses=[{'layout': 0, 'keep': 0}], min_confirmed=100, enumerated='layout selector (1-2 spines, operator depth 3 / 2), which lines are null (3 plans)',
+       bounds={'quick': 'every spine-operator layout of one **kern spine up to 3 operator lines and of kern + text / kern + kern up to 2, x 3 null-line plans', 'thorough': 'same'}),
     Ob(id='C03.g', fn=ob_g, title='grid and cell content of long scores (hundreds to thousands of lines) against the cell model',
        shard_of=lambda k: k, shards={'quick': 2, 'thorough': 3}, budget_s={'quick': 120, 'thorough': 600}, native_body=True,
        witnesses=[{'k': 0}], min_confirmed=2, enumerated='score length',
